@@ -45,7 +45,9 @@ def run(tier):
                 c.covers_missing.append("H_C08_WsShip:c08.wsship.end")
             for v in r["violations"] or []:
                 if v["kind"] in ("panic", "deadlock") or (v["kind"] == "assert" and v["id"].startswith("C08.")):
-                    c.handle("ws", "H_C08_WsShip_Native", dict(v, draws=[]), hang_s=150,
+                    # the peer frames of the counterexample are rebuilt as real bytes and sent by the native twin's peer
+                    vv = dict(v, draws=[d for d in v.get("draws") or [] if d["name"] == "msg"])
+                    c.handle("ws", "H_C08_WsShip_Native", vv, make_tape=ship_tape, hang_s=150,
                              expect={"any": ["VERIF-ASSERT-FAILED", "VERIF-PANIC", "VERIF-HANG"]})
     c.assumptions.append("COMPOSED: H_C08_WsShip runs the real ws.WebsocketConnection (gorilla conn cut to harness functions, WS ENV as in C12/C13) under the real ship.ShipConnection; handshake timers do not elapse on their own, delayed closes (<= 2 s) are fired; findings are replayed on a real loopback websocket (H_C08_WsShip_Native)")
     # mDNS resolver input (TXT items, element maps, address lists, ports)
